@@ -70,7 +70,7 @@ instance (M w V) : Decidable (EigOk M w V) := by unfold EigOk; infer_instance
 def EigContractAt (eig : List (List Rat) → Py (List Cx × List (List Cx))) (M : List (List Rat)) : Prop :=
   ∃ w V, eig M = .ok (w, V) ∧ EigOk M w V
 
-/-- the eigen-solver oracle meets its contract on every non-empty square matrix.  NOTE: over exact rationals no oracle can satisfy this for
+/-- the eigen-solver oracle meets its contract on every non-empty square matrix.  NOTE (remark, not machine-checked): over exact rationals no oracle can satisfy this for
     ALL matrices (`[[0,1],[2,0]]` has the eigenvalues `±√2`); the theorems therefore only assume `EigContractAt eig M` for the matrix at hand. -/
 def EigContract (eig : List (List Rat) → Py (List Cx × List (List Cx))) : Prop :=
   ∀ M n, SquareN M n → 0 < n → EigContractAt eig M
